@@ -709,3 +709,11 @@ package server
 //@   modifies config.Telemetry
 //@   ensures [environment-wins] envSet("LIFTBRIDGE_TELEMETRY_ENABLED") && parsesAsBool(envVal("LIFTBRIDGE_TELEMETRY_ENABLED")) ==> config.Telemetry.Enabled == boolOf(envVal("LIFTBRIDGE_TELEMETRY_ENABLED"))
 //@   ensures [otherwise-unchanged] !(envSet("LIFTBRIDGE_TELEMETRY_ENABLED") && parsesAsBool(envVal("LIFTBRIDGE_TELEMETRY_ENABLED"))) ==> config.Telemetry.Enabled == old(config.Telemetry.Enabled)
+
+// a committed stream deletion reaches the consumer groups as part of applying the operation, in commit order: if
+// it runs on a goroutine of its own a later group operation can be applied first and the epoch guard then refuses
+// the deletion on this server only
+//@ synchronous (*consumerGroup).StreamDeleted serves C12, C06:
+// scheduling points (verification hook, see verifpoint_verif.go): the hook changes nothing
+//@ assume func verifPoint
+//@   modifies nothing
